@@ -169,16 +169,32 @@ func newKV(elem, capHint int) kvAPI {
 	switch elem {
 	case 1:
 		return &kvOf[string, string]{m: mapz.NewSafeKV[string, string](capHint),
-			ek: func(k int) string { return "k" + strconv.Itoa(k) },
+			ek: func(k int) string {
+				if k == 0 {
+					return "" // key 0 is the zero value of the key type
+				}
+				return "k" + strconv.Itoa(k)
+			},
 			dk: func(s string) int {
+				if s == "" {
+					return 0
+				}
 				n, err := strconv.Atoi(strings.TrimPrefix(s, "k"))
 				if err != nil {
 					return -7
 				}
 				return n
 			},
-			ev: func(v int) string { return strconv.Itoa(v) },
+			ev: func(v int) string {
+				if v == 0 {
+					return ""
+				}
+				return strconv.Itoa(v)
+			},
 			dv: func(s string) int {
+				if s == "" {
+					return 0
+				}
 				n, err := strconv.Atoi(s)
 				if err != nil {
 					return tornBase + len(s)
@@ -187,15 +203,31 @@ func newKV(elem, capHint int) kvAPI {
 			}}
 	case 2:
 		return &kvOf[skey, triple]{m: mapz.NewSafeKV[skey, triple](capHint),
-			ek: func(k int) skey { return skey{k, "k" + strconv.Itoa(k&3)} },
+			ek: func(k int) skey {
+				if k == 0 {
+					return skey{}
+				}
+				return skey{k, "k" + strconv.Itoa(k&3)}
+			},
 			dk: func(s skey) int {
+				if s == (skey{}) {
+					return 0
+				}
 				if s.B != "k"+strconv.Itoa(s.A&3) {
 					return -7
 				}
 				return s.A
 			},
-			ev: func(v int) triple { return triple{v, ^int64(v), uint64(v) * 3} },
+			ev: func(v int) triple {
+				if v == 0 {
+					return triple{}
+				}
+				return triple{v, ^int64(v), uint64(v) * 3}
+			},
 			dv: func(t triple) int {
+				if t == (triple{}) {
+					return 0
+				}
 				if t.B != ^int64(t.A) || t.C != uint64(t.A)*3 {
 					return tornBase + 1000 + t.A&0xff
 				}
@@ -203,17 +235,30 @@ func newKV(elem, capHint int) kvAPI {
 			}}
 	case 3:
 		return &kvOf[any, *int]{m: mapz.NewSafeKV[any, *int](capHint),
-			ek: func(k int) any { return k },
+			ek: func(k int) any {
+				if k == 0 {
+					return nil // the nil interface is a legitimate map key
+				}
+				return k
+			},
 			dk: func(x any) int {
 				if n, ok := x.(int); ok {
 					return n
 				}
+				if x == nil {
+					return 0
+				}
 				return -7
 			},
-			ev: func(v int) *int { return &v },
+			ev: func(v int) *int {
+				if v == 0 {
+					return nil
+				}
+				return &v
+			},
 			dv: func(p *int) int {
 				if p == nil {
-					return tornBase + 2000
+					return 0
 				}
 				return *p
 			}}
@@ -352,12 +397,16 @@ func gen(r *sim.Rng, tier string) *sim.Case {
 	}
 	w[1+r.N(3)] += 2 // always some writer
 	total := 0
+	zeroStored := false
 	for t := 0; t < nT; t++ {
 		n := r.Range(1, maxOps)
 		var prog []sim.Op
 		for i := 0; i < n; i++ {
 			k := r.Pick(w...)
 			op := sim.Op{Op: opNames[k], K: r.N(nKeys), V: (t+1)<<8 | (i + 1)}
+			if !zeroStored && r.Pct(4) {
+				op.V, zeroStored = 0, true // the zero value of the value type is a value like any other
+			}
 			switch op.Op {
 			case "Delete":
 				for j := r.Range(0, 3); j > 0; j-- {
